@@ -1369,3 +1369,492 @@ pub proof fn lemma_and_history_independent(a: BDD, b: BDD, r1: BDD, r2: BDD, lo:
 {
     lemma_result_determined(r1, r2, lo);
 }
+
+// ================================================================ results depend only on free variables (C09)
+
+pub open spec fn indep(b: BDD, v: Sym) -> bool {
+    forall|a: Asg, x: bool| #[trigger] eval(b, upd(a, v, x)) == eval(b, a)
+}
+
+pub open spec fn rho_indep(rho: Rho, v: Sym) -> bool {
+    forall|k: Sym| rho.dom().contains(k) ==> indep(#[trigger] rho[k], v)
+}
+
+pub open spec fn ax_tag(a: Asg, x: bool) -> bool { true }
+
+/// the meaning of f does not change when the value of v changes
+pub open spec fn sem_indep(f: SymbolicBDD, v: Sym, rho: Rho) -> bool {
+    forall|a: Asg, x: bool| #[trigger] ax_tag(a, x) ==> sem(f, upd(a, v, x), rho) == sem(f, a, rho)
+}
+
+pub proof fn lemma_upd_same(a: Asg, v: Sym, x: bool, y: bool)
+    ensures upd(upd(a, v, x), v, y) == upd(a, v, y)
+{
+    assert(upd(upd(a, v, x), v, y) =~= upd(a, v, y));
+}
+
+pub proof fn lemma_upd_comm(a: Asg, v: Sym, x: bool, w: Sym, y: bool)
+    requires v != w
+    ensures upd(upd(a, v, x), w, y) == upd(upd(a, w, y), v, x)
+{
+    assert(upd(upd(a, v, x), w, y) =~= upd(upd(a, w, y), v, x));
+}
+
+pub proof fn lemma_semq_indep(q: QuantifierType, vs: Seq<Sym>, b: SymbolicBDD, v: Sym, a: Asg, x: bool, rho: Rho)
+    requires vs.contains(v) || sem_indep(b, v, rho)
+    ensures semq(q, vs, b, upd(a, v, x), rho) == semq(q, vs, b, a, rho)
+    decreases vs.len()
+{
+    if vs.len() == 0 {
+        assert(ax_tag(a, x));
+    } else {
+        let w = vs[0];
+        let rest = vs.subrange(1, vs.len() as int);
+        if w == v {
+            lemma_upd_same(a, v, x, true);
+            lemma_upd_same(a, v, x, false);
+        } else {
+            if vs.contains(v) {
+                let i = choose|i: int| 0 <= i < vs.len() && vs[i] == v;
+                assert(rest[i - 1] == v);
+                assert(rest.contains(v));
+            }
+            lemma_upd_comm(a, v, x, w, true);
+            lemma_upd_comm(a, v, x, w, false);
+            lemma_semq_indep(q, rest, b, v, upd(a, w, true), x, rho);
+            lemma_semq_indep(q, rest, b, v, upd(a, w, false), x, rho);
+        }
+    }
+}
+
+pub proof fn lemma_scount_indep(bs: Seq<SymbolicBDD>, i: nat, v: Sym, a: Asg, x: bool, rho: Rho)
+    requires forall|k: int| 0 <= k < bs.len() ==> sem_indep(#[trigger] bs[k], v, rho)
+    ensures scount(bs, i, upd(a, v, x), rho) == scount(bs, i, a, rho)
+    decreases bs.len() - i
+{
+    if i < bs.len() {
+        lemma_scount_indep(bs, i + 1, v, a, x, rho);
+        assert(sem_indep(bs[i as int], v, rho));
+        assert(ax_tag(a, x));
+    }
+}
+
+/// every iterate of a fixed-point computation is independent of v if the body is (for independent values of X)
+pub proof fn lemma_fp_iterates_indep(xx: Sym, i: bool, t: SymbolicBDD, rho: Rho, v: Sym, tr: Seq<BDD>, k: int)
+    requires
+        fp_trace(xx, i, t, rho, tr), 0 <= k < tr.len(),
+        forall|p: BDD| indep(p, v) ==> sem_indep(t, v, #[trigger] rho.insert(xx, p)),
+    ensures indep(tr[k], v)
+    decreases k
+{
+    if k == 0 {
+        assert forall|a: Asg, x: bool| #[trigger] eval(tr[0], upd(a, v, x)) == eval(tr[0], a) by {}
+    } else {
+        lemma_fp_iterates_indep(xx, i, t, rho, v, tr, k - 1);
+        let p = tr[k - 1];
+        assert(fp_step(xx, t, rho, tr[k - 1], tr[k - 1 + 1]));
+        assert(sem_indep(t, v, rho.insert(xx, p)));
+        assert forall|a: Asg, x: bool| #[trigger] eval(tr[k], upd(a, v, x)) == eval(tr[k], a) by {
+            assert(ax_tag(a, x));
+        }
+    }
+}
+
+/// sem ignores the value of a variable that is not free in f (and that no diagram in the environment depends on)
+pub proof fn lemma_sem_indep(f: SymbolicBDD, v: Sym, rho: Rho)
+    requires rho.dom().contains(v) || !free_in(f, v), rho_indep(rho, v), subtrees_ok(f, true)
+    ensures sem_indep(f, v, rho)
+    decreases f
+{
+    match f {
+        SymbolicBDD::False | SymbolicBDD::True | SymbolicBDD::Subtree(_) | SymbolicBDD::Reference(_) => {
+            if f is Reference {
+                assert(sem_indep(f, v, rho));
+            }
+        }
+        SymbolicBDD::Var(w) => {
+            assert forall|a: Asg, x: bool| #[trigger] ax_tag(a, x) implies sem(f, upd(a, v, x), rho) == sem(f, a, rho) by {
+                if rho.dom().contains(w) { assert(indep(rho[w], v)); }
+            }
+        }
+        SymbolicBDD::Not(b) => {
+            lemma_sem_indep(*b, v, rho);
+            assert forall|a: Asg, x: bool| #[trigger] ax_tag(a, x) implies sem(f, upd(a, v, x), rho) == sem(f, a, rho) by {
+                assert(sem(*b, upd(a, v, x), rho) == sem(*b, a, rho));
+            }
+        }
+        SymbolicBDD::Quantifier(q, vs, b) => {
+            lemma_sym_in(vs@, v);
+            let r0 = rho.remove_keys(vs@.to_set());
+            if !vs@.contains(v) {
+                assert(r0.dom().contains(v) == rho.dom().contains(v));
+                assert(rho_indep(r0, v));
+                lemma_sem_indep(*b, v, r0);
+            }
+            assert forall|a: Asg, x: bool| #[trigger] ax_tag(a, x) implies sem(f, upd(a, v, x), rho) == sem(f, a, rho) by {
+                lemma_semq_indep(q, vs@, *b, v, a, x, r0);
+            }
+        }
+        SymbolicBDD::CountableConst(op, bs, n) => {
+            assert forall|k: int| 0 <= k < bs@.len() implies sem_indep(#[trigger] bs@[k], v, rho) by {
+                lemma_sem_indep(bs@[k], v, rho);
+            }
+            assert forall|a: Asg, x: bool| #[trigger] ax_tag(a, x) implies sem(f, upd(a, v, x), rho) == sem(f, a, rho) by {
+                lemma_scount_indep(bs@, 0, v, a, x, rho);
+            }
+        }
+        SymbolicBDD::CountableVariable(op, l, r) => {
+            assert forall|k: int| 0 <= k < l@.len() implies sem_indep(#[trigger] l@[k], v, rho) by {
+                lemma_sem_indep(l@[k], v, rho);
+            }
+            assert forall|k: int| 0 <= k < r@.len() implies sem_indep(#[trigger] r@[k], v, rho) by {
+                lemma_sem_indep(r@[k], v, rho);
+            }
+            assert forall|a: Asg, x: bool| #[trigger] ax_tag(a, x) implies sem(f, upd(a, v, x), rho) == sem(f, a, rho) by {
+                lemma_scount_indep(l@, 0, v, a, x, rho);
+                lemma_scount_indep(r@, 0, v, a, x, rho);
+            }
+        }
+        SymbolicBDD::Ite(c, t, e) => {
+            lemma_sem_indep(*c, v, rho); lemma_sem_indep(*t, v, rho); lemma_sem_indep(*e, v, rho);
+            assert forall|a: Asg, x: bool| #[trigger] ax_tag(a, x) implies sem(f, upd(a, v, x), rho) == sem(f, a, rho) by {
+                assert(sem(*c, upd(a, v, x), rho) == sem(*c, a, rho));
+                assert(sem(*t, upd(a, v, x), rho) == sem(*t, a, rho));
+                assert(sem(*e, upd(a, v, x), rho) == sem(*e, a, rho));
+            }
+        }
+        SymbolicBDD::BinaryOp(op, l, r) => {
+            lemma_sem_indep(*l, v, rho); lemma_sem_indep(*r, v, rho);
+            assert forall|a: Asg, x: bool| #[trigger] ax_tag(a, x) implies sem(f, upd(a, v, x), rho) == sem(f, a, rho) by {
+                assert(sem(*l, upd(a, v, x), rho) == sem(*l, a, rho));
+                assert(sem(*r, upd(a, v, x), rho) == sem(*r, a, rho));
+            }
+        }
+        SymbolicBDD::FixedPoint(xx, i, t) => {
+            assert forall|p: BDD| indep(p, v) implies sem_indep(*t, v, #[trigger] rho.insert(xx, p)) by {
+                let r1 = rho.insert(xx, p);
+                assert forall|k: Sym| r1.dom().contains(k) implies indep(#[trigger] r1[k], v) by {
+                    if k != xx { assert(rho.dom().contains(k)); assert(indep(rho[k], v)); }
+                }
+                lemma_sem_indep(*t, v, r1);
+            }
+            assert forall|a: Asg, x: bool| #[trigger] ax_tag(a, x) implies sem(f, upd(a, v, x), rho) == sem(f, a, rho) by {
+                // every result of the iteration is the last element of a trace, hence independent of v
+                assert forall|y: BDD| fp_result(xx, i, *t, rho, y) implies #[trigger] eval(y, upd(a, v, x)) == eval(y, a) by {
+                    let tr = choose|tr: Seq<BDD>| #[trigger] tr_tag(tr) && fp_trace(xx, i, *t, rho, tr) && tr[tr.len() - 1] == y && fp_step(xx, *t, rho, y, y);
+                    lemma_fp_iterates_indep(xx, i, *t, rho, v, tr, tr.len() - 1);
+                }
+                if fp_sem(xx, i, *t, rho, upd(a, v, x)) {
+                    let y = choose|y: BDD| fp_result(xx, i, *t, rho, y) && #[trigger] eval(y, upd(a, v, x));
+                    assert(fp_result(xx, i, *t, rho, y) && eval(y, a));
+                }
+                if fp_sem(xx, i, *t, rho, a) {
+                    let y = choose|y: BDD| fp_result(xx, i, *t, rho, y) && #[trigger] eval(y, a);
+                    assert(fp_result(xx, i, *t, rho, y) && eval(y, upd(a, v, x)));
+                }
+            }
+        }
+    }
+}
+
+/// an ROBDD that does not depend on v does not test v
+pub proof fn lemma_indep_not_occurs(r: BDD, v: Sym, lo: int)
+    requires robdd(r, lo), indep(r, v)
+    ensures !occurs(r, v)
+    decreases r
+{
+    if r is Choice {
+        let t = *r->0; let w = r->1; let f = *r->2;
+        if w == v {
+            assert forall|a: Asg| eval(t, a) == eval(f, a) by {
+                lemma_indep(t, key(w) + 1, a, w, true);
+                lemma_indep(f, key(w) + 1, a, w, false);
+                assert(eval(r, upd(a, v, true)) == eval(r, a));
+                assert(eval(r, upd(a, v, false)) == eval(r, a));
+                assert(upd(a, v, true)(w));
+                assert(!upd(a, v, false)(w));
+            }
+            assert(sem_eq(t, f));
+            lemma_canon(t, f, key(w) + 1);
+            assert(false);
+        } else {
+            assert forall|a: Asg, x: bool| #[trigger] eval(t, upd(a, v, x)) == eval(t, a) by {
+                let a1 = upd(a, w, true);
+                lemma_upd_comm(a, w, true, v, x);
+                lemma_indep(t, key(w) + 1, upd(a, v, x), w, true);
+                lemma_indep(t, key(w) + 1, a, w, true);
+                assert(eval(r, upd(a1, v, x)) == eval(r, a1));
+                assert(upd(a1, v, x)(w));
+                assert(a1(w));
+            }
+            assert forall|a: Asg, x: bool| #[trigger] eval(f, upd(a, v, x)) == eval(f, a) by {
+                let a1 = upd(a, w, false);
+                lemma_upd_comm(a, w, false, v, x);
+                lemma_indep(f, key(w) + 1, upd(a, v, x), w, false);
+                lemma_indep(f, key(w) + 1, a, w, false);
+                assert(eval(r, upd(a1, v, x)) == eval(r, a1));
+                assert(!upd(a1, v, x)(w));
+                assert(!a1(w));
+            }
+            lemma_indep_not_occurs(t, v, key(w) + 1);
+            lemma_indep_not_occurs(f, v, key(w) + 1);
+        }
+    }
+}
+
+/// C09: the diagram the evaluator returns for f tests only variables that are free in f
+pub proof fn lemma_result_only_free(f: SymbolicBDD, r: BDD, v: Sym)
+    requires subtrees_ok(f, true), !free_in(f, v), robdd(r, 0), forall|a: Asg| #[trigger] eval(r, a) == sem(f, a, Map::<Sym, BDD>::empty())
+    ensures !occurs(r, v)
+{
+    let e = Map::<Sym, BDD>::empty();
+    lemma_sem_indep(f, v, e);
+    assert forall|a: Asg, x: bool| #[trigger] eval(r, upd(a, v, x)) == eval(r, a) by {
+        assert(ax_tag(a, x));
+    }
+    lemma_indep_not_occurs(r, v, 0);
+}
+
+// ================================================================ the remaining sentences of C04 as lemmas over the contracts
+
+/// exq is "some re-assignment of the variables in vs makes b true"
+pub proof fn lemma_exq_char(vs: Seq<Sym>, b: BDD, a: Asg)
+    ensures exq(vs, b, a) <==> (exists|t: Asg| agree_outside(a, t, vs) && #[trigger] eval(b, t))
+    decreases vs.len()
+{
+    if vs.len() == 0 {
+        if exq(vs, b, a) { assert(agree_outside(a, a, vs) && eval(b, a)); }
+        if exists|t: Asg| agree_outside(a, t, vs) && #[trigger] eval(b, t) {
+            let t = choose|t: Asg| agree_outside(a, t, vs) && #[trigger] eval(b, t);
+            assert forall|w: Sym| #[trigger] t(w) == a(w) by { assert(!vs.contains(w)); }
+            assert(t =~= a);
+        }
+    } else {
+        let v0 = vs[0];
+        let rest = vs.subrange(1, vs.len() as int);
+        lemma_exq_char(rest, b, upd(a, v0, true));
+        lemma_exq_char(rest, b, upd(a, v0, false));
+        if exq(vs, b, a) {
+            let x = exq(rest, b, upd(a, v0, true));
+            let a1 = upd(a, v0, x);
+            let t = choose|t: Asg| agree_outside(a1, t, rest) && #[trigger] eval(b, t);
+            assert forall|w: Sym| !vs.contains(w) implies #[trigger] t(w) == a(w) by {
+                if rest.contains(w) {
+                    let i = choose|i: int| 0 <= i < rest.len() && rest[i] == w;
+                    assert(vs[i + 1] == w);
+                }
+                assert(w != v0) by { if w == v0 { assert(vs[0] == w); } }
+            }
+            assert(agree_outside(a, t, vs) && eval(b, t));
+        }
+        if exists|t: Asg| agree_outside(a, t, vs) && #[trigger] eval(b, t) {
+            let t = choose|t: Asg| agree_outside(a, t, vs) && #[trigger] eval(b, t);
+            let x = t(v0);
+            let a1 = upd(a, v0, x);
+            assert forall|w: Sym| !rest.contains(w) implies #[trigger] t(w) == a1(w) by {
+                if w != v0 {
+                    if vs.contains(w) {
+                        let i = choose|i: int| 0 <= i < vs.len() && vs[i] == w;
+                        assert(i > 0);
+                        assert(rest[i - 1] == w);
+                    }
+                }
+            }
+            assert(agree_outside(a1, t, rest) && eval(b, t));
+            assert(exq(rest, b, a1));
+        }
+    }
+}
+
+/// two assignments that agree on every variable tested in b give b the same value
+pub proof fn lemma_eval_agree(b: BDD, a: Asg, t: Asg)
+    requires forall|w: Sym| occurs(b, w) ==> #[trigger] a(w) == t(w)
+    ensures eval(b, a) == eval(b, t)
+    decreases b
+{
+    if b is Choice {
+        let bt = *b->0; let bf = *b->2; let v = b->1;
+        assert(occurs(b, v));
+        assert forall|w: Sym| occurs(bt, w) implies #[trigger] a(w) == t(w) by { assert(occurs(b, w)); }
+        assert forall|w: Sym| occurs(bf, w) implies #[trigger] a(w) == t(w) by { assert(occurs(b, w)); }
+        lemma_eval_agree(bt, a, t);
+        lemma_eval_agree(bf, a, t);
+    }
+}
+
+/// C04: the result never depends on a variable of V
+pub proof fn lemma_exists_indep(vs: Seq<Sym>, b: BDD, r: BDD, v: Sym)
+    requires vs.contains(v), forall|a: Asg| #[trigger] eval(r, a) == exq(vs, b, a)
+    ensures indep(r, v)
+{
+    assert forall|a: Asg, x: bool| #[trigger] eval(r, upd(a, v, x)) == eval(r, a) by {
+        let a1 = upd(a, v, x);
+        lemma_exq_char(vs, b, a);
+        lemma_exq_char(vs, b, a1);
+        assert forall|t: Asg| #[trigger] agree_outside(a, t, vs) == agree_outside(a1, t, vs) by {
+            if agree_outside(a, t, vs) { assert forall|w: Sym| !vs.contains(w) implies #[trigger] t(w) == a1(w) by {} }
+            if agree_outside(a1, t, vs) { assert forall|w: Sym| !vs.contains(w) implies #[trigger] t(w) == a(w) by { assert(t(w) == a1(w)); } }
+        }
+        if exq(vs, b, a) {
+            let t = choose|t: Asg| agree_outside(a, t, vs) && #[trigger] eval(b, t);
+            assert(agree_outside(a1, t, vs) && eval(b, t));
+        }
+        if exq(vs, b, a1) {
+            let t = choose|t: Asg| agree_outside(a1, t, vs) && #[trigger] eval(b, t);
+            assert(agree_outside(a, t, vs) && eval(b, t));
+        }
+    }
+}
+
+/// C04: the result is unaffected by the order or repetition of the variables in V (same set => same diagram)
+pub proof fn lemma_exists_set(vs1: Seq<Sym>, vs2: Seq<Sym>, b: BDD, r1: BDD, r2: BDD)
+    requires
+        forall|w: Sym| vs1.contains(w) == vs2.contains(w),
+        robdd(r1, 0), robdd(r2, 0),
+        forall|a: Asg| #[trigger] eval(r1, a) == exq(vs1, b, a),
+        forall|a: Asg| #[trigger] eval(r2, a) == exq(vs2, b, a),
+    ensures r1 == r2
+{
+    assert forall|a: Asg| eval(r1, a) == eval(r2, a) by {
+        lemma_exq_char(vs1, b, a);
+        lemma_exq_char(vs2, b, a);
+        if exq(vs1, b, a) {
+            let t = choose|t: Asg| agree_outside(a, t, vs1) && #[trigger] eval(b, t);
+            assert forall|w: Sym| !vs2.contains(w) implies #[trigger] t(w) == a(w) by { assert(!vs1.contains(w)); }
+            assert(agree_outside(a, t, vs2) && eval(b, t));
+        }
+        if exq(vs2, b, a) {
+            let t = choose|t: Asg| agree_outside(a, t, vs2) && #[trigger] eval(b, t);
+            assert forall|w: Sym| !vs1.contains(w) implies #[trigger] t(w) == a(w) by { assert(!vs2.contains(w)); }
+            assert(agree_outside(a, t, vs1) && eval(b, t));
+        }
+    }
+    assert(sem_eq(r1, r2));
+    lemma_canon(r1, r2, 0);
+}
+
+/// C04: exists(V, f) is f itself when V is empty or disjoint from the variables f depends on
+pub proof fn lemma_exists_disjoint(vs: Seq<Sym>, b: BDD, r: BDD)
+    requires
+        forall|w: Sym| vs.contains(w) ==> !occurs(b, w),
+        robdd(b, 0), robdd(r, 0),
+        forall|a: Asg| #[trigger] eval(r, a) == exq(vs, b, a),
+    ensures r == b
+{
+    assert forall|a: Asg| eval(r, a) == eval(b, a) by {
+        lemma_exq_char(vs, b, a);
+        if exq(vs, b, a) {
+            let t = choose|t: Asg| agree_outside(a, t, vs) && #[trigger] eval(b, t);
+            assert forall|w: Sym| occurs(b, w) implies #[trigger] a(w) == t(w) by { assert(!vs.contains(w)); }
+            lemma_eval_agree(b, a, t);
+        }
+        if eval(b, a) { assert(agree_outside(a, a, vs) && eval(b, a)); }
+    }
+    assert(sem_eq(r, b));
+    lemma_canon(r, b, 0);
+}
+
+/// C04: all(V, f) is "every re-assignment of the variables in V makes f true" (dual of lemma_exq_char)
+pub proof fn lemma_allq_char(vs: Seq<Sym>, b: BDD, a: Asg)
+    ensures allq(vs, b, a) <==> (forall|t: Asg| agree_outside(a, t, vs) ==> #[trigger] eval(b, t))
+    decreases vs.len()
+{
+    if vs.len() == 0 {
+        if allq(vs, b, a) {
+            assert forall|t: Asg| agree_outside(a, t, vs) implies #[trigger] eval(b, t) by {
+                assert forall|w: Sym| #[trigger] t(w) == a(w) by { assert(!vs.contains(w)); }
+                assert(t =~= a);
+            }
+        }
+        if forall|t: Asg| agree_outside(a, t, vs) ==> #[trigger] eval(b, t) { assert(agree_outside(a, a, vs)); }
+    } else {
+        let v0 = vs[0];
+        let rest = vs.subrange(1, vs.len() as int);
+        lemma_allq_char(rest, b, upd(a, v0, true));
+        lemma_allq_char(rest, b, upd(a, v0, false));
+        if allq(vs, b, a) {
+            assert forall|t: Asg| agree_outside(a, t, vs) implies #[trigger] eval(b, t) by {
+                let a1 = upd(a, v0, t(v0));
+                assert forall|w: Sym| !rest.contains(w) implies #[trigger] t(w) == a1(w) by {
+                    if w != v0 {
+                        if vs.contains(w) {
+                            let i = choose|i: int| 0 <= i < vs.len() && vs[i] == w;
+                            assert(i > 0);
+                            assert(rest[i - 1] == w);
+                        }
+                    }
+                }
+                assert(agree_outside(a1, t, rest));
+            }
+        }
+        if forall|t: Asg| agree_outside(a, t, vs) ==> #[trigger] eval(b, t) {
+            assert forall|x: bool| #[trigger] allq(rest, b, upd(a, v0, x)) by {
+                let a1 = upd(a, v0, x);
+                assert forall|t: Asg| agree_outside(a1, t, rest) implies #[trigger] eval(b, t) by {
+                    assert forall|w: Sym| !vs.contains(w) implies #[trigger] t(w) == a(w) by {
+                        if rest.contains(w) {
+                            let i = choose|i: int| 0 <= i < rest.len() && rest[i] == w;
+                            assert(vs[i + 1] == w);
+                        }
+                        assert(w != v0) by { if w == v0 { assert(vs[0] == w); } }
+                    }
+                    assert(agree_outside(a, t, vs));
+                }
+            }
+            assert(allq(rest, b, upd(a, v0, true)) && allq(rest, b, upd(a, v0, false)));
+        }
+    }
+}
+
+// ================================================================ Kleene: least / greatest fixed point for monotone bodies (C06)
+
+pub open spec fn leq(p: BDD, q: BDD) -> bool { forall|a: Asg| eval(p, a) ==> #[trigger] eval(q, a) }
+
+/// the body t is monotone in x: larger value of x, larger value of t
+pub open spec fn fp_mono(x: Sym, t: SymbolicBDD, rho: Rho) -> bool {
+    forall|p: BDD, q: BDD, p2: BDD, q2: BDD| leq(p, q) && #[trigger] fp_step(x, t, rho, p, p2) && #[trigger] fp_step(x, t, rho, q, q2) ==> leq(p2, q2)
+}
+
+pub proof fn lemma_lfp_below(x: Sym, t: SymbolicBDD, rho: Rho, tr: Seq<BDD>, k: int, z: BDD, z2: BDD)
+    requires fp_trace(x, false, t, rho, tr), 0 <= k < tr.len(), fp_mono(x, t, rho), fp_step(x, t, rho, z, z2), leq(z2, z)
+    ensures leq(tr[k], z)
+    decreases k
+{
+    if k > 0 {
+        lemma_lfp_below(x, t, rho, tr, k - 1, z, z2);
+        assert(fp_step(x, t, rho, tr[k - 1], tr[k - 1 + 1]));
+        assert(leq(tr[k], z2));
+        assert forall|a: Asg| eval(tr[k], a) implies #[trigger] eval(z, a) by { assert(eval(z2, a)); }
+    }
+}
+
+/// `lfp X # T` (first stable iterate from false) is a fixed point and lies below every pre-fixed point z (T[X:=z] <= z)
+pub proof fn lemma_lfp_least(x: Sym, t: SymbolicBDD, rho: Rho, y: BDD, z: BDD, z2: BDD)
+    requires fp_result(x, false, t, rho, y), fp_mono(x, t, rho), fp_step(x, t, rho, z, z2), leq(z2, z)
+    ensures fp_step(x, t, rho, y, y), leq(y, z)
+{
+    let tr = choose|tr: Seq<BDD>| #[trigger] tr_tag(tr) && fp_trace(x, false, t, rho, tr) && tr[tr.len() - 1] == y && fp_step(x, t, rho, y, y);
+    lemma_lfp_below(x, t, rho, tr, tr.len() - 1, z, z2);
+}
+
+pub proof fn lemma_gfp_above(x: Sym, t: SymbolicBDD, rho: Rho, tr: Seq<BDD>, k: int, z: BDD, z2: BDD)
+    requires fp_trace(x, true, t, rho, tr), 0 <= k < tr.len(), fp_mono(x, t, rho), fp_step(x, t, rho, z, z2), leq(z, z2)
+    ensures leq(z, tr[k])
+    decreases k
+{
+    if k > 0 {
+        lemma_gfp_above(x, t, rho, tr, k - 1, z, z2);
+        assert(fp_step(x, t, rho, tr[k - 1], tr[k - 1 + 1]));
+        assert(leq(z2, tr[k]));
+        assert forall|a: Asg| eval(z, a) implies #[trigger] eval(tr[k], a) by { assert(eval(z2, a)); }
+    }
+}
+
+/// `gfp X # T` (first stable iterate from true) is a fixed point and lies above every post-fixed point z (z <= T[X:=z])
+pub proof fn lemma_gfp_greatest(x: Sym, t: SymbolicBDD, rho: Rho, y: BDD, z: BDD, z2: BDD)
+    requires fp_result(x, true, t, rho, y), fp_mono(x, t, rho), fp_step(x, t, rho, z, z2), leq(z, z2)
+    ensures fp_step(x, t, rho, y, y), leq(z, y)
+{
+    let tr = choose|tr: Seq<BDD>| #[trigger] tr_tag(tr) && fp_trace(x, true, t, rho, tr) && tr[tr.len() - 1] == y && fp_step(x, t, rho, y, y);
+    lemma_gfp_above(x, t, rho, tr, tr.len() - 1, z, z2);
+}
